@@ -160,7 +160,8 @@ def worker(job):
                     if not any(c.tag in ('failure', 'error', 'skipped') for c in tc):
                         ok.add(tc.get('classname') + '::' + tc.get('name'))
             except Exception:
-                pass
+                out['outcome'] = 'tests_inconclusive'
+                return out
             base = set(json.load(open('/root/.vp/BASELINE.json'))['stable_pass'])
             lost = sorted(base - ok)
             out['tests_lost'] = lost[:5]
